@@ -302,8 +302,82 @@ fn emit(sink: &mut Sink, cfg: &str, seed: u64, tag: &str) {
     sink.case("rtm", &[cfg, &seed.to_string(), &enc_schema(&s), &enc_tval(&v), &float_table(&v)], &o, &t, nt);
 }
 
+// ------------------------------------------------------------------ WIDE documents (op `rtw`)
+
+/// `enum Shape { Unit, Newtype(u32), Tuple(i8, String), Struct { a: bool, b: Option<char> } }`
+fn wide_enum() -> Schema {
+    Schema::Enum(vec![
+        ("Unit".into(), Shape::Unit),
+        ("Newtype".into(), Shape::Newtype(Box::new(Schema::Int(IntTy::U32)))),
+        ("Tuple".into(), Shape::Tuple(vec![Schema::Int(IntTy::I8), Schema::Str])),
+        ("Struct".into(), Shape::Struct(vec![("a".into(), Schema::Bool), ("b".into(), Schema::Option(Box::new(Schema::Char)))])),
+    ])
+}
+/// the `i`-th element: variant kind `vk` = unit / newtype / tuple / struct / mixed (the three non-unit kinds in rotation)
+fn wide_elem(vk: &str, i: usize) -> TVal {
+    let which = match vk { "unit" => 0, "newtype" => 1, "tuple" => 2, "struct" => 3, _ => 1 + i % 3 };
+    let p = match which {
+        0 => TVal::Unit,
+        1 => TVal::Int(false, i as u128),
+        2 => TVal::Seq(vec![if i % 100 == 0 { TVal::Int(false, 0) } else { TVal::Int(true, (i % 100) as u128) }, TVal::Str(format!("s{}", i))]),
+        _ => TVal::Struct(vec![TVal::Bool(i % 2 == 0), if i % 5 == 0 { TVal::None } else { TVal::Some(Box::new(TVal::Char('x'))) }]),
+    };
+    TVal::Variant(which, Box::new(p))
+}
+const WIDE_CONTAINERS: &[&str] = &["seq", "map", "spread"];
+const WIDE_KINDS: &[&str] = &["unit", "newtype", "tuple", "struct", "mixed"];
+/// family `<container>-<variant kind>-<n>`: `n` enum values in one `Vec`, one `BTreeMap<u16, _>`, or spread over
+/// `struct Doc { first: Vec<_>, second: (Vec<_>, Vec<_>), last: _ }` (no container long, the document wide)
+fn wide_case(family: &str) -> Option<(Schema, TVal)> {
+    let f: Vec<&str> = family.split('-').collect();
+    if f.len() != 3 || !WIDE_CONTAINERS.contains(&f[0]) || !WIDE_KINDS.contains(&f[1]) { return None; }
+    let n: usize = f[2].parse().ok()?;
+    let e = wide_enum();
+    let elems: Vec<TVal> = (0..n).map(|i| wide_elem(f[1], i)).collect();
+    Some(match f[0] {
+        "seq" => (Schema::Seq(Box::new(e)), TVal::Seq(elems)),
+        "map" => (Schema::Map(KeyKind::Int(IntTy::U16), Box::new(e)), TVal::Map(elems.into_iter().enumerate().map(|(i, v)| (TVal::Int(false, i as u128), v)).collect())),
+        _ => {
+            let vec_e = Schema::Seq(Box::new(e.clone()));
+            let s = Schema::Struct(vec![("first".into(), vec_e.clone()), ("second".into(), Schema::Tuple(vec![vec_e.clone(), vec_e])), ("last".into(), e)], false);
+            let (a, b) = ((n.max(1) - 1) / 3, 2 * (n.max(1) - 1) / 3);
+            let mut it = elems.into_iter();
+            let first: Vec<TVal> = it.by_ref().take(a).collect();
+            let second: Vec<TVal> = it.by_ref().take(b - a).collect();
+            let mut third: Vec<TVal> = it.collect();
+            let last = third.pop().unwrap_or_else(|| wide_elem(f[1], 0));
+            (s, TVal::Struct(vec![TVal::Seq(first), TVal::Seq(vec![TVal::Seq(second), TVal::Seq(third)]), last]))
+        }
+    })
+}
+
+fn emit_wide(sink: &mut Sink, cfg: &str, family: &str, tag: &str) {
+    let (s, v) = match wide_case(family) { Some(x) => x, None => { eprintln!("unknown rtw family {}", family); return; } };
+    let o = observe(&s, &v);
+    let want = format!("OK:{}", enc_tval(&v));
+    let f: Vec<&str> = o.split('|').collect();
+    let same = f.len() == 4 && f[1] == want && f[3] == want;
+    let fam: Vec<&str> = family.split('-').collect();
+    let t = format!("rtw:{}:{}-{}:{}", tag, fam[0], fam[1], if same { "same" } else { "DIFF" });
+    sink.case("rtw", &[cfg, family, &enc_schema(&s), &enc_tval(&v), &float_table(&v)], &o, &t, true);
+}
+
+/// documents that are wide, not deep: 100 … 300 enum values of every variant kind side by side (the nesting is at most 5).
+/// Reading one back must not depend on how many siblings were read before it.
+fn run_wide(sink: &mut Sink, cfg: &str, thorough: bool) {
+    for c in WIDE_CONTAINERS {
+        for k in WIDE_KINDS {
+            for n in [100usize, 126, 127, 128, 130, 300, 1000] {
+                if n == 1000 && !(thorough || *k == "mixed") { continue; }
+                emit_wide(sink, cfg, &format!("{}-{}-{}", c, k, n), "wide");
+            }
+        }
+    }
+}
+
 pub fn replay(sink: &mut Sink, toks: &[&str]) {
     let cfg = cfg_tag();
+    if toks[0] == "rtw" { if toks.len() >= 3 { emit_wide(sink, &cfg, toks[2], "replay"); } return; }
     if toks.len() >= 3 { emit(sink, &cfg, toks[2].parse().unwrap_or(0), "replay"); } else { eprintln!("cannot replay {:?}", toks); }
 }
 
@@ -312,4 +386,5 @@ pub fn run(sink: &mut Sink, thorough: bool, seed: u64) {
     let mut r = Rng::new(seed ^ 0x0c04_7e57);
     let n = if thorough { 120_000 } else { 6_000 };
     for _ in 0..n { let cs = r.next(); emit(sink, &cfg, cs, "rand"); }
+    run_wide(sink, &cfg, thorough);
 }
